@@ -187,7 +187,7 @@ class C38(Check):
             "off-grid, max_deriv >= 2; distinct by (grid, centre, max_deriv).")
     assumptions = ["Fraction arithmetic is the reference; the moment conditions are the definition of the property",
                    "symbolic weights are rational functions of the symbols; they are judged at rational points where all grid points are distinct"]
-    tiers = {"quick": {"examples": 5000}, "thorough": {"examples": 100000}}
+    tiers = {"quick": {"examples": 5000}, "thorough": {"examples": 200000}}
     min_nontrivial = 50
 
     def enumerate(self, tier):
